@@ -64,7 +64,7 @@ fn run_progress_stub<T: Cell + ndarray::LinalgScalar + PartialEq + Send + num_tr
     let special = params.get("special").and_then(|v| v.as_bool()).unwrap_or(false);
     let cfg = sim_cfg(&params["sim"]);
     mcmc_sim::mpsc::reset_ids();
-    let (rep, out) = run_sim(&cfg, move || {
+    let body = move || {
         let mut s = CountSampler::<T>::new(nc, dim);
         for c in s.chains.iter_mut() {
             c.inner_points = inner;
@@ -76,7 +76,37 @@ fn run_progress_stub<T: Cell + ndarray::LinalgScalar + PartialEq + Send + num_tr
             Ok((arr, stats)) => Ok((arr, stats, counts)),
             Err(e) => Err(e.to_string()),
         }
-    });
+    };
+    // fidelity cross-check of the seams: the same protocol code on REAL OS threads and std channels
+    // (the seams' pass-through mode); only the results are compared, there is no schedule to record
+    if params.get("real_threads").and_then(|v| v.as_bool()).unwrap_or(false) {
+        let _ = mcmc_sim::sim::take_last_panic();
+        let r = std::panic::catch_unwind(std::panic::AssertUnwindSafe(body));
+        o.hash = str_hash(&params.to_string());
+        o.nontrivial = true;
+        o.work = (nc * (n_collect + n_discard)) as u64;
+        o.count("probe_real_os_thread_runs", 1);
+        match r {
+            Err(_) => {
+                let m = mcmc_sim::sim::take_last_panic().unwrap_or_default();
+                let loc = m.rsplit(" @ ").next().unwrap_or("").to_string();
+                o.violate("panic", &format!("ChainRunner::run_progress:panic@{loc}"), format!("on real threads: {m}"));
+            }
+            Ok(Err(e)) => o.violate("run_progress_err", "ChainRunner::run_progress:Err", e),
+            Ok(Ok((arr, stats, counts))) => {
+                check_counting_array_sp(&mut o, &arr, nc, n_collect, n_discard, dim, 0, "ChainRunner::run_progress", special);
+                let total = (n_collect + n_discard) as u64;
+                if counts.iter().any(|n| *n != total) {
+                    o.violate("transition_count", "ChainRunner::run_progress:transitions", format!("transition counts {counts:?}, expected {total} each"));
+                }
+                if !runstats_eq(&stats, &RunStats::from(arr.view())) {
+                    o.violate("diagnostics_differ", "ChainRunner::run_progress:stats", "diagnostics differ from RunStats::from(returned draws) on real threads".into());
+                }
+            }
+        }
+        return o;
+    }
+    let (rep, out) = run_sim(&cfg, body);
     o.sim_time_ns = rep.sim_time_ns;
     o.work = (nc * (n_collect + n_discard)) as u64;
     o.hash = mix(mix(rep.sched_hash, rep.event_hash), str_hash(&params.to_string()));
@@ -174,6 +204,7 @@ impl Scenario for ProgressStub {
             // hundreds of times before the first message / between two messages
             "inner_points": if g.bool(1, 10) { g.range(20, 60) } else { g.range(0, 2) },
             "special": g.bool(1, 4),
+            "real_threads": g.bool(1, 16) && nc <= 12,
             "sim": gen_sim(g, nc + 2, true),
         })
     }
@@ -202,7 +233,7 @@ impl Scenario for ProgressStub {
     }
     fn components(&self) -> Value {
         json!({"real": ["ChainRunner::run_progress", "run_chain_progress", "ChainTracker", "collect_rhat", "RunStats::from", "indicatif bars (hidden)"],
-               "stub": ["MarkovChain = counting chain", "threads/channels/clock = simulator (shuttle coroutines, simulated clock)"]})
+               "stub": ["MarkovChain = counting chain", "threads/channels/clock = simulator (shuttle coroutines, simulated clock); 1 run in 16 with <= 12 chains: real OS threads and std channels through the seams' pass-through mode"]})
     }
 }
 
